@@ -376,7 +376,10 @@ func checkC04(c *Ctx, r *Report, tier string) {
 		})
 	}
 	effectRule(c, r, "C04.R3", func(n string) bool { return strings.HasPrefix(n, "Hnsw.") })
+	restoreResetsBeforeSuccess(c, r, "C04.R3")
 	grammarRule(c, r, "C04.R4")
+	r.Rule("C04.R5", "the snapshot callback serialises the current state on every call: the bytes it returns never come from a field (cache) or a parameter", 1)
+	snapshotIsFresh(c, r, "C04.R5", "partition")
 }
 
 // levelFromLog: the level value comes from GetLevel() of the entry or Level() of an existing vertex, possibly through
@@ -588,4 +591,5 @@ func checkC08(c *Ctx, r *Report, tier string) {
 	}
 	// R5
 	effectRule(c, r, "C08.R5", func(n string) bool { return strings.HasPrefix(n, "Hnsw.") })
+	restoreResetsBeforeSuccess(c, r, "C08.R5")
 }
